@@ -629,6 +629,30 @@ def run_histories(spec, cases, work, model_ok=True, compare_taps=True):
                     if cc:
                         cexprs.append((f"{cid}@{k}", cc[0]))
                         cwant[f"{cid}@{k}"] = cc[1]
+        vexprs, vwant = [], {}
+        for cid, o in obs.items():
+            if o["status"] != "ok":
+                continue
+            for k in range(len(o["steps"])):
+                st = Step(k, bycase[cid], o)
+                pre_cfg = (o["steps"][k - 1].get("files") or {}).get("config") if k > 0 else ((bycase[cid].get("store") or {}).get("config") if isinstance(bycase[cid].get("store"), dict) else None)
+                vc = usercmd.version_case(st, pre_cfg) if pre_cfg is not None else None
+                if vc:
+                    vexprs.append((f"{cid}@{k}", vc[0]))
+                    vwant[f"{cid}@{k}"] = vc[1]
+        vmodel = vetlib.run_model(vexprs, os.path.join(work, "model-version"), usercmd.VERSION_IMPORTS) if vexprs else {}
+        for key, (what, wrote) in vwant.items():
+            cid, k = key.rsplit("@", 1)
+            m = vmodel.get(key, "MODEL-ERROR: missing")
+            if m.startswith("MODEL-ERROR"):
+                res["mismatches"].append({"id": cid, "why": f"step {k} (store version): model evaluation failed: {m[:300]}", "case": gen.strip_struct(bycase[cid])})
+                continue
+            compared += 1
+            mk, mv = usercmd.canon_version(m)
+            agree = (mk in ("outdated", "newer") and what == "refused") or (mk == "ok" and what != "refused" and (wrote is None or wrote == mv))
+            if not agree:
+                res["mismatches"].append({"id": cid, "why": f"step {k}: the store-version rule: the model says {mk} {mv}, the command {what} and wrote version {wrote}",
+                                          "impl": json.dumps([what, wrote]), "model": json.dumps([mk, mv]), "case": gen.strip_struct(bycase[cid])})
         gexprs, gwant = [], {}
         for cid, o in obs.items():
             if o["status"] != "ok":
